@@ -49,8 +49,14 @@ def trace_events(path):
             continue
         if line.startswith("(ms ") and "(result unsat)" in line and "(via flag)" not in line:
             fl = re.search(r"\(frame-lits ([-0-9 ]*)\)", line)
-            lits = [str(-int(x)) for x in (fl.group(1).split() if fl else []) if int(x) != 0]
-            out.append("a:%s" % ",".join(lits))      # every live frame is enabled
+            flits = [int(x) for x in (fl.group(1).split() if fl else [])]
+            # the answer flags frames k, k+1, ... as unsat: the refutation may use the activation of frames 0..k only
+            # (k = reported conflict frame when solving, frame fns-1 when a clause insertion failed)
+            cf = re.search(r"\(conflict-frame (\d+)\)", line)
+            fns = re.search(r"\(fns (\d+)\)", line)
+            k = int(cf.group(1)) if cf else (int(fns.group(1)) - 1 if fns else len(flits))
+            lits = [str(-x) for x in flits[:max(k, 0)] if x != 0]
+            out.append("a:%s" % ",".join(lits))
             out.append("q")
             nq += 1
     return ";".join(out), nq
